@@ -132,7 +132,7 @@ pub async fn run_case(backend: &str, seed: u64, rep: &mut Report, corr: &mut Cor
         }
         for _ in 0..n_edits {
             let mut a = w.devices[k].lock().await;
-            match rng.below(if with_files { 8 } else { 5 }) {
+            match rng.below(8) {
                 0 => { let (m, s) = note(&format!("n{}", rng.below(1000)), "x"); let _ = a.create_secret(m, s, Default::default()).await; script.push(format!("edit d{k} create")); }
                 5 | 6 => {
                     // an external file: a file event in the FILE log (and a secret in the default folder)
@@ -257,8 +257,12 @@ pub async fn run_case(backend: &str, seed: u64, rep: &mut Report, corr: &mut Cor
                 rep.spec_fail(&format!("c05-merged-events-not-in-timestamp-order{}", if has_dups(name) { "-with-byte-identical-events" } else { "-all-events-distinct" }), json!({"case_seed": seed, "backend": backend, "log": name, "script": script}), "events after the ancestor are not in timestamp order");
             }
             if got != want {
+                // gap predicate of a recorded finding: the FILE log had no event at all when the devices diverged and
+                // more than one device made file events (no common event to start the merge from)
+                let file_devs: std::collections::BTreeSet<usize> = committed_by.get(name).map(|v| v.iter().map(|x| x.0).collect()).unwrap_or_default();
+                let no_common_file_event = name == "files" && anc.is_empty() && file_devs.len() > 1;
                 let class = format!("{}{}", if got.len() > want.len() { "c05-event-duplicated-or-added" } else { "c05-event-lost" },
-                    if has_dups(name) { "-with-byte-identical-events" } else { "-all-events-distinct" });
+                    if no_common_file_event { "-file-log-without-common-event" } else if has_dups(name) { "-with-byte-identical-events" } else { "-all-events-distinct" });
                 rep.spec_fail(&class, json!({"case_seed": seed, "backend": backend, "log": name, "script": script, "got": got.len(), "want": want.len()}), "converged log is not ancestor + each committed event exactly once");
             }
         }
